@@ -276,6 +276,37 @@ def ev_table(case, ctx):
             if got != exp:
                 ctx.violation("rows with an undefined coordinate were treated as inside a region around %s: kept %r, expected %r (%s)" % (
                     rname, got, exp, sig2), "table_undefined|" + sig2)
+    # history: the same Region object masks a table, is extended (union with and without renormalisation, add_circles) and masks
+    # the table again - the second answer is the one of the extended region
+    if names:
+        import copy as _copy3
+        for how in ("union", "union_norenorm", "add_circles"):
+            r_ = _copy3.deepcopy(reg)
+            t = Table()
+            t["ra"] = np.array([coords[n][0] for n in names], dtype=float)
+            t["dec"] = np.array([coords[n][1] for n in names], dtype=float)
+            t["tag"] = np.array(names, dtype="U12")
+            ctx.count("mask_table_history")
+            sigh = "history:%s,rows=%s" % (how, "+".join(names))
+            ctx.nontrivial(sigh)
+            try:
+                first = [str(x) for x in MIMAS.mask_table(r_, t.copy())["tag"]]
+                ora, odec = coords["outside"]
+                if how == "add_circles":
+                    r_.add_circles(np.radians(ora), np.radians(odec), np.radians(1.5))
+                else:
+                    other = Region(maxdepth=depth)
+                    other.add_circles(np.radians(ora), np.radians(odec), np.radians(1.5))
+                    r_.union(other, renorm=(how == "union"))
+                second = [str(x) for x in MIMAS.mask_table(r_, t.copy())["tag"]]
+            except Exception as e:
+                ctx.violation("mask_table raised %r (%s)" % (e, sigh), "table_raise|" + sigh)
+                continue
+            exp1 = [n for n in names if not expect_inside[n]]
+            exp2 = [n for n in exp1 if n != "outside"]
+            if first != exp1 or second != exp2:
+                ctx.violation("a region masks a table, is extended by %s around the 'outside' row and masks the table again: kept %r then %r, expected %r then %r (%s)" % (
+                    how, first, second, exp1, exp2, sigh), "table_history|" + sigh)
     # rows exactly AT a celestial pole, region = polar cap: such a row is an ordinary position
     for pole, negate in itertools.product((90.0, -90.0), (False, True)):
         cap = Region(maxdepth=depth)
